@@ -12,7 +12,7 @@ Local Open Scope Z_scope.
    (a,b) -> if tickS(ID,a,b) = F then throw("boom") else a<b                        (Dpr2, D = 0)
    F absent: the comparison is made with a value no element takes. *)
 Inductive dfn1 := Dfn1 (fail : option Z) (a b : Z).
-Inductive dpk := DGt (t : Z) | DEq (t : Z) | DMod (m r : Z).
+Inductive dpk := DGt (t : Z) | DEq (t : Z) | DMod (m r : Z) | DLt (t : Z).
 Inductive dpr1 := Dpr1 (fail : option Z) (k : dpk).
 Inductive dfn2 := Dfn2 (fail : option Z) (sel : bool) (p q c : Z).
 Inductive dpr2 := Dpr2 (fail : option Z) (sel : bool) (d : Z).
@@ -25,6 +25,7 @@ Definition den_fn1 (d : dfn1) : fn1 :=
 
 Definition den_pk (k : dpk) (x : Z) : bool :=
   match k with
+  | DLt t => x <? t
   | DGt t => t <? x
   | DEq t => x =? t
   | DMod m r => Z.rem x m =? r
